@@ -140,14 +140,33 @@ func corpusFiles() []*descriptorpb.FileDescriptorProto {
 	kf.EnumType = append(kf.EnumType, &descriptorpb.EnumDescriptorProto{Name: proto.String("Kind"), Value: []*descriptorpb.EnumValueDescriptorProto{
 		{Name: proto.String("KIND_NONE"), Number: proto.Int32(0)}, {Name: proto.String("KIND_SOME"), Number: proto.Int32(4)}}})
 	files = append(files, kf)
+	// a proto path with upper-case letters (file-scoped identifiers are derived from it)
+	mc := newFile("corpus/Mixed/CaseTypes.proto", "corpus.mixed", freshModule+"/corpus/mixed")
+	mcm := newMsg("TxBody", "corpus.mixed.TxBody")
+	mcm.field("memo", 1, descriptorpb.FieldDescriptorProto_TYPE_STRING, "")
+	mcm.repeated("amounts", 2, descriptorpb.FieldDescriptorProto_TYPE_UINT64, "", nil)
+	mcm.mapField("tags", 3, descriptorpb.FieldDescriptorProto_TYPE_STRING, descriptorpb.FieldDescriptorProto_TYPE_STRING, "")
+	mc.MessageType = append(mc.MessageType, mcm.m)
+	files = append(files, mc)
+	// another proto package living in the same Go package as corpus.dep (Go package, not proto package, decides which
+	// init functions a file must call)
+	dx := newFile("corpus/dep/depx.proto", "corpus.depx", freshModule+"/corpus/dep")
+	dxm := newMsg("Extra", "corpus.depx.Extra")
+	dxm.field("note", 1, descriptorpb.FieldDescriptorProto_TYPE_STRING, "")
+	dx.MessageType = append(dx.MessageType, dxm.m)
+	dx.EnumType = append(dx.EnumType, &descriptorpb.EnumDescriptorProto{Name: proto.String("Grade"), Value: []*descriptorpb.EnumValueDescriptorProto{
+		{Name: proto.String("GRADE_A"), Number: proto.Int32(0)}, {Name: proto.String("GRADE_B"), Number: proto.Int32(1)}}})
+	files = append(files, dx)
 	// a second file of the same Go package that imports the first (its init must not depend on what else is generated)
-	dep2 := newFile("corpus/dep/dep2.proto", "corpus.dep", freshModule+"/corpus/dep", "corpus/dep/dep.proto", "corpus/kinds/kinds.proto")
+	dep2 := newFile("corpus/dep/dep2.proto", "corpus.dep", freshModule+"/corpus/dep", "corpus/dep/dep.proto", "corpus/kinds/kinds.proto", "corpus/dep/depx.proto")
 	d2 := newMsg("Dep2", "corpus.dep.Dep2")
 	d2.field("dep", 1, tMsg, ".corpus.dep.Dep")
 	d2.field("kind", 2, tEnum, ".corpus.dep.DepEnum")
 	d2.repeated("more", 3, tMsg, ".corpus.dep.Dep", nil)
 	// declared out of number order, with references to several distinct types (the dependency index table lists them
 	// in declaration order)
+	d2.field("extra", 11, tMsg, ".corpus.depx.Extra")
+	d2.field("grade", 12, tEnum, ".corpus.depx.Grade")
 	d2.field("late_kind", 9, tEnum, ".corpus.kinds.Kind")
 	d2.field("early_names", 4, tMsg, ".corpus.dep.Names")
 	d2.mapField("kinds_by_name", 7, descriptorpb.FieldDescriptorProto_TYPE_STRING, tEnum, ".corpus.kinds.Kind")
